@@ -457,7 +457,41 @@ def ev_form(x):
     return x.get('path')
 
 
+def self_consistent(tr):
+    """is the trace free of self-contradiction?  One evaluation of one condition event (a bool local defined once: const bool any = !empty();
+    if (any && a) {...} else if (any) {...}) cannot come out differently at two branches unless the event ran again in between (a loop iteration,
+    a second expansion of the helper); a plain local / parameter tested twice without having been written keeps its value.  The enumerator
+    walks every combination of edges: combinations that contradict themselves are not paths of the program"""
+    known = {}
+    for it in tr:
+        k_ = it.get('k')
+        if k_ in ('enter', 'leave'):
+            continue
+        if k_ == 'branch':
+            if it.get('cond_ev') is not None:
+                k = (it.get('fn'), it.get('depth', 0), it['cond_ev'], it.get('rcond_ev'), it.get('path'))
+            elif re.fullmatch(r'(local|param):\w+(#\d+)?', it.get('path') or ''):
+                k = (it.get('fn'), it.get('depth', 0), None, None, it['path'])
+            else:
+                continue
+            v = bool(it.get('val'))
+            if k in known and known[k] != v:
+                return False
+            known[k] = v
+            continue
+        if it.get('id') is not None and known:
+            for k in [k for k in known if k[2] == it['id'] and k[0] == it.get('fn') and k[1] == it.get('depth', 0)]:
+                del known[k]          # the event ran again: a new value
+        if known and (k_ in ('write', 'decl') or (k_ == 'call' and it.get('args'))):
+            ps = [it.get('path'), it.get('var')] + [a.get('path') for a in (it.get('args') or []) if '&' in (a.get('type') or '&')]
+            for k in [k for k in known if k[2] is None and any(p and (p == k[4] or p == '&(%s)' % k[4]) for p in ps)]:
+                del known[k]
+    return True
+
+
 class Tracer:
+    prune_contradictions = True
+
     """enumerates flattened entry->exit event traces of a function instance; calls to library
     functions accepted by inline_filter are expanded in place (bounded depth, no recursion)."""
 
@@ -688,6 +722,8 @@ class Tracer:
 
         walk(f['entry'], {f['entry']: 1}, [])
         self.count += len(out)
+        if d == 0 and self.prune_contradictions:
+            out = [t for t in out if self_consistent(t)]
         return out
 
     def retconst(self, sub):
